@@ -7,6 +7,7 @@ From Coq Require Import ZArith List Bool Lia.
 Import ListNotations.
 Require Import SV.Common SV.C10.Gen_tokens SV.C10.Listener SV.C10.Proc.
 Require Import SV.C10.ListenerProofs SV.C10.ProcProofs SV.C10.Automaton SV.C10.AutomatonProofs.
+Require Import SV.C10.ReadLog SV.C10.ReadLogProofs.
 Open Scope Z_scope.
 
 (* The interpretation of a listener's stdout depends only on the byte stream,
@@ -20,6 +21,16 @@ Theorem c10_frag_invariant :
   let '(s2, o2) := feed h maxdig s1 b in (s2, o1 ++ o2).
 Proof. exact feed_frag. Qed.
 Print Assumptions c10_frag_invariant.
+
+(* handle_read_event with options.strip_ansi and a child log: the listener
+   state and the protocol effects are those of the raw bytes read, for either
+   value of strip_ansi and with or without a child log (escape stripping
+   reaches the child log only) *)
+Theorem c10_strip_ansi_independent :
+  forall h maxdig strip_ansi has_childlog s data,
+  fst (read_event_full h maxdig strip_ansi has_childlog s data) = read_event h maxdig s data.
+Proof. exact read_event_full_protocol. Qed.
+Print Assumptions c10_strip_ansi_independent.
 
 (* well-formedness is what __init__ establishes and every read preserves *)
 Theorem c10_wf_invariant :
